@@ -385,6 +385,13 @@ PLevel1 == PAtoms \cup {Bn(o, a, b) : o \in LogicOps, a \in PAtoms, b \in PAtoms
 NegBool == {Un("not", Bn(o, a, b)) : o \in LogicOps, a \in PLevel1, b \in PAtoms}
            \cup {Un("not", Bn(o, a, b)) : o \in LogicOps, a \in PAtoms, b \in PLevel1}
            \cup {Qn("forall", "k", Own("xs"), Un("not", Bn("implies", Bn(o, Bn(">", K, NumA("0")), a), b))) : o \in LogicOps, a \in PAtoms, b \in PAtoms}
+(* ---- comparisons of a literal with a linear term built from two multiplicative layers (sign flips when isolating x) ---- *)
+LinK == {NumA("2"), NumA("3"), Un("-", NumA("2")), Un("-", NumA("3"))}
+Lin1 == {Bn(m, Own("x"), k) : m \in {"*", "/"}, k \in LinK}
+Lin2 == {Bn(m, Bn("+", l, b), k) : m \in {"*", "/"}, l \in Lin1, b \in {NumA("0"), NumA("1")}, k \in LinK}
+        \cup {Bn(m, l, k) : m \in {"*", "/"}, l \in Lin1, k \in LinK}
+LinCmp == {Bn(op, l, c) : op \in {"<", "<=", ">", ">=", "=", "!="}, l \in Lin2, c \in {NumA("10"), NumA("6"), Un("-", NumA("6"))}}
+          \cup {Bn(op, c, l) : op \in {"<", ">="}, l \in Lin2, c \in {NumA("6")}}
 RandTerms == {IF i % 3 = 0 THEN RNum(RandDepth) ELSE RBool(RandDepth) : i \in 1..RandN}
 
 Members ==
@@ -409,6 +416,7 @@ Members ==
     [] Family = "cancel"  -> Cancel
     [] Family = "resolve" -> Resolve
     [] Family = "negbool" -> NegBool
+    [] Family = "lincmp"  -> LinCmp
     [] OTHER -> {}
 
 TInit == cst \in Members
